@@ -4,8 +4,10 @@ import PercevalModel.Model.C16
 /-!
   Line protocol for C16.  One request = one session:
   `{"pf": {"max_modes":n|null, "min_modes":…, "max_photons":…, "min_photons":…, "commands":[…]},
-    "ops": [ {"op": …}, … ]}`
-  Reply: `{"outs": [ {"err": cls} | {"done": true} | {"payload": [[k, v]…]} | {"sent": {…}} … ],
+    "ops": [ {"op": …}, … ]}`  (an `execute` op carries `"net": "ok" | "lost" | "down"`: what the network does
+  to the one request `create_job` emits)
+  Reply: `{"outs": [ {"err": cls} | {"done": true} | {"payload": [[k, v]…]} | {"sent": {…}}
+                     | {"err": "TransportError", "received": {…}} … ],
            "states": [ digest of the remote processor after each op | null ],
            "log": number of create_job calls}`.
   A request that cannot be parsed is answered `{"err": …}`.
@@ -67,6 +69,12 @@ def methodOf (s : String) : Except String Method :=
   else if s = "samples" then pure .samples
   else throw s!"unknown method {s}"
 
+def netOf (s : String) : Except String Net :=
+  if s = "ok" then pure .ok
+  else if s = "lost" then pure .lost
+  else if s = "down" then pure .down
+  else throw s!"unknown network behaviour {s}"
+
 def opOf (j : Json) : Except String Op := do
   let op ← strOf j "op"
   if op = "new_remote" then
@@ -95,7 +103,7 @@ def opOf (j : Json) : Except String Op := do
   if op = "job" then return .createJob (← methodOf (← strOf j "method"))
   if op = "execute" then
     return .execute (← natOf j "job") (← (← arrOf j "args").toList.mapM pvOfJson)
-      (← pairsOf (← j.getObjVal? "kw") pvOfJson)
+      (← pairsOf (← j.getObjVal? "kw") pvOfJson) (← netOf (← strOf j "net"))
   throw s!"unknown op {op}"
 
 /-! output -/
@@ -134,12 +142,15 @@ def ivJson : IV → Json
 
 def itersJson (its : List (Dict IV)) : Json := .arr (its.map (pairsJson · ivJson)).toArray
 
+def sentJson (s : Sent) : Json :=
+  Json.mkObj [("job_name", .str s.jobName), ("payload", pairsJson s.payload vJson), ("iterator", itersJson s.iterator)]
+
 def outJson : Out → Json
   | .err e => Json.mkObj [("err", .str e.name)]
   | .done => Json.mkObj [("done", true)]
   | .payload pl => Json.mkObj [("payload", pairsJson pl vJson)]
-  | .sent s => Json.mkObj [("sent", Json.mkObj [("job_name", .str s.jobName), ("payload", pairsJson s.payload vJson),
-      ("iterator", itersJson s.iterator)])]
+  | .sent s => Json.mkObj [("sent", sentJson s)]
+  | .lost s => Json.mkObj [("err", .str Err.transport.name), ("received", sentJson s)]
 
 def expJson (e : Exp) : Json :=
   Json.mkObj [("m", toJson e.m), ("size", toJson e.size), ("heralds", heraldsJson e.heralds),
